@@ -113,6 +113,7 @@ CHECKS = {
         "runs": [
             {"pkg": "core", "run": "^TestC07Lifecycle$", "quick": 500, "thorough": 20000, "shards_thorough": 8},
             {"pkg": "core", "run": "^TestC07HookGate$", "quick": 400, "thorough": 10000, "shards_thorough": 4},
+            {"pkg": "core", "run": "^TestC07DialHook$", "quick": 60, "thorough": 1500, "shards_thorough": 4},
         ],
     },
     "C08": {
